@@ -53,6 +53,7 @@ def run(chk, replay=None):
     cases += _gen.collide_lines(streams.vocab())     # every operator-argument name as a user field name, systematically
     cases += streams.keyword_lines()                 # every bare word of the tables as a string VALUE
     cases += streams.deep_lines()                    # literals 50 .. 300 levels deep
+    cases += streams.long_value_lines()              # long literals around buffer sizes, in near-duplicate pairs
     cases += streams.crossclass_lines()              # one literal text at positions of different classes, in one line and over consecutive lines
     streams.note_distribution(chk, cases)
     nonred = nonred_names()
